@@ -34,6 +34,7 @@ def shards(tier, seed):
     out = [("scalars", omp) for omp in (0, 2)]
     out += [("history", omp, first, "np") for omp in (0, 2) for first in range(9)]
     out += [("history", 0, first, "ba") for first in range(9)]  # objects living in a BufferByteArray
+    out += [("rereg", omp) for omp in (0, 2)]  # one kernel name declared again and again in one context
     return out[seed % len(out):] + out[: seed % len(out)]
 
 
@@ -423,8 +424,68 @@ def run_history(omp, first, depth, res, seed, kind="np"):
     res.states += len(seen)
 
 
+REREG = {
+    # kernel `ident` in three declarations of one context: scalar kind and element kind of the pointer parameter differ
+    "i64": ("int64_t ident(int64_t x, int64_t* p){ return x + p[0]; }", "i64"),
+    "f64": ("double ident(double x, double* p){ return x + p[0]; }", "f64"),
+    "i32": ("int32_t ident(int32_t x, int32_t* p){ return x + p[0]; }", "i32"),
+}
+
+
+def run_rereg(omp, tier, res, seed):
+    """histories of (declare `ident` with one of three signatures | call it) in ONE context, through both routes: every call
+    reaches the declaration that is current, converts scalars to ITS type and refuses arrays of another element kind"""
+    import xobjects as xo
+
+    v = V(res, omp)
+    kinds = sorted(REREG)
+    depth = 3 if tier == "quick" else 4
+    for decls in itertools.product(kinds, repeat=depth):
+        if any(a == b for a, b in zip(decls, decls[1:])):
+            continue
+        ctx = xo.ContextCpu(omp_num_threads=omp)
+        res.cases += 1
+        for step, k in enumerate(decls):
+            src, sk = REREG[k]
+            T = getattr(xo, xt.XONAME[sk])
+            res.transitions += 1
+            res.events["declare"] += 1
+            try:
+                ctx.add_kernels(sources=[src], kernels={"ident": xo.Kernel(args=[xo.Arg(T, name="x"), xo.Arg(T, pointer=True, name="p")], ret=xo.Arg(T))},
+                                extra_compile_args=("-O0", "-w"), extra_link_args=())
+            except Exception as e:
+                v.bad("C17.accepts", "declaration-raises:" + type(e).__name__, repr(e)[-300:], history=list(decls[: step + 1]))
+                break
+            dt = xt.NPDT[sk]
+            x = 2**53 + 1 if sk == "i64" else (2**31 - 1 if sk == "i32" else 0.1)
+            for route in ("attr", "item"):
+                call = (lambda **kw: ctx.kernels.ident(**kw)) if route == "attr" else (lambda **kw: ctx.kernels["ident"](**kw))
+                res.transitions += 2
+                res.events["call-after-redeclaration"] += 1
+                feat = dict(history=list(decls[: step + 1]), route=route, kind=sk)
+                try:
+                    r = call(x=x, p=np.zeros(2, dtype=dt))
+                    if not same_bits(dt, r, x):
+                        v.bad("C17.scalar", "reaches-superseded-declaration", "ident(%r) after %r returns %r (%s)" % (x, list(decls[: step + 1]), r, route), **feat)
+                        continue
+                except Exception as e:
+                    v.bad("C17.accepts", "legal-call-raises:" + type(e).__name__, "after %r (%s): %r" % (list(decls[: step + 1]), route, e), **feat)
+                    continue
+                other = [o for o in kinds if o != k][0]
+                try:
+                    call(x=x, p=np.zeros(2, dtype=xt.NPDT[REREG[other][1]]))
+                    v.bad("C17.refuses", "accepted:wrong-dtype-after-redeclaration", "an array of %s accepted for the current %s declaration (%s)" % (other, k, route), **feat)
+                except Exception:
+                    res.outcomes["ok:rereg"] += 1
+        res.states += 1
+
+
 def run_shard(shard, tier, seed):
     res = common.ShardResult()
+    if shard[0] == "rereg":
+        run_rereg(shard[1], tier, res, seed)
+        res.nontrivial = res.states
+        return res
     if shard[0] == "scalars":
         run_scalars(shard[1], res, seed)
         res.sample(dict(part="scalars", omp=shard[1], kernels=len(source_and_kernels()[1])))
